@@ -1393,6 +1393,7 @@ func (x *Exec) execLoopCommon(node ast.Node, bodyPos token.Pos, env *Env, label 
 			x.assert(bodyEnv, tag+"/hint:"+clauseName(c, i), "", hsc.EvalBool(c.Expr))
 		}
 	}
+	iterStart := bodyEnv.clone()
 	nsplits := len(x.cx.splits)
 	if lc != nil {
 		ssc := loopScope(bodyEnv)
@@ -1405,6 +1406,13 @@ func (x *Exec) execLoopCommon(node ast.Node, bodyPos token.Pos, env *Env, label 
 	end := x.merge(conts)
 	if end != nil && post != nil {
 		end = post(end)
+	}
+	if end != nil && lc != nil {
+		for i, c := range lc.Steps {
+			sc := loopScope(end)
+			sc.prev = x.scopeAt(iterStart, bodyPos)
+			x.assert(end, tag+"/step:"+clauseName(c, i), "", sc.EvalBool(c.Expr))
+		}
 	}
 	if end != nil {
 		evalInvs(end, "preserved", true)
